@@ -189,6 +189,7 @@ type supRun struct {
 	v     *act.VerifSup
 	lines []string
 	obs   []string
+	lastNow int64 // the clock reading passed to the model for the last childTerminated
 	vt    int64 // virtual time (ms)
 	delta int64 // stored restarts = virtual + delta
 }
@@ -318,6 +319,7 @@ func (r *supRun) terminated(name int, pid uint64, reason string, gap int64) supO
 			r.vt = now
 		}
 	}
+	r.lastNow = now
 	return r.record(fmt.Sprintf("term %d %d %s %d", name, pid, reason, now), a, err, p)
 }
 func (r *supRun) childSpec(name int) supOut {
@@ -347,7 +349,9 @@ type supSeq struct {
 	tag        string
 }
 
-func supCompare(c *Ctx, seqs []supSeq, workers int) {
+func supCompare(c *Ctx, seqs []supSeq, workers int) { supCompareModel(c, "sup", seqs, workers) }
+
+func supCompareModel(c *Ctx, model string, seqs []supSeq, workers int) {
 	r := c.R
 	if len(seqs) == 0 {
 		return
@@ -377,7 +381,7 @@ func supCompare(c *Ctx, seqs []supSeq, workers int) {
 			for _, s := range seqs[lo:hi] {
 				lines = append(lines, s.lines...)
 			}
-			results[w].outs, results[w].err = Model("sup", lines)
+			results[w].outs, results[w].err = Model(model, lines)
 		}(w, lo, hi)
 	}
 	wg.Wait()
@@ -391,7 +395,7 @@ func supCompare(c *Ctx, seqs []supSeq, workers int) {
 			hi = len(seqs)
 		}
 		if results[w].err != nil {
-			r.Disagree("sup.driver", results[w].err.Error(), nil)
+			r.Disagree(model+".driver", results[w].err.Error(), nil)
 			return
 		}
 		k := 0
@@ -399,7 +403,11 @@ func supCompare(c *Ctx, seqs []supSeq, workers int) {
 			for j := range s.lines {
 				if results[w].outs[k+j] != s.obs[j] && reported < 3 {
 					reported++
-					r.Disagree("K2 Model.Sup"+strings.ToUpper(s.cfg.Kind)+" ~ act.sup* state machine ("+s.tag+")",
+					nm := "K2 Model.Sup" + strings.ToUpper(s.cfg.Kind) + " ~ act.sup* state machine (" + s.tag + ")"
+					if model == "suploop" {
+						nm = "K2 Model.SupLoop (closed system over the model machines) ~ simulation around the real " + s.cfg.Kind + " state machine (" + s.tag + ")"
+					}
+					r.Disagree(nm,
 						fmt.Sprintf("op %d %q: model %q, implementation %q", j, s.lines[j], results[w].outs[k+j], s.obs[j]),
 						map[string]interface{}{"config": s.cfg, "ops": s.lines[:j+1]})
 					break
@@ -543,10 +551,12 @@ func runC08(c *Ctx) {
 		"generators: closed-system simulation (deaths at any moment incl. during restarts/stops, immediately after start, spawn failures, Start/Add/Enable/DisableChild) with an " +
 		"independent oracle of the documented rules, and wild call sequences; non-trivial = sequence with at least one child termination handled outside shutdown; distinct by (config, op lines)"
 	t0 := time.Now()
-	var seqs []supSeq
+	var seqs, loops []supSeq
 
 	// ---- listed / fixed witnesses first ------------------------------------------
-	seqs = append(seqs, supWitnesses(c)...)
+	ws, wl := supWitnesses(c)
+	seqs = append(seqs, ws...)
+	loops = append(loops, wl...)
 
 	// ---- closed-system simulation with the oracle ---------------------------------
 	nsim := c.N(6000, 150000)
@@ -556,6 +566,8 @@ func runC08(c *Ctx) {
 		s := newSupSim(c, g, cfg)
 		s.runEpisodes(6 + g.Intn(10))
 		seqs = append(seqs, supSeq{s.run.lines, s.run.obs, cfg, "sim"})
+		loops = append(loops, supSeq{s.loopLines, s.loopObs, cfg, "sim"})
+		r.CountN("labels.closed-system", len(s.loopLines))
 		r.Case(fmt.Sprintf("%v|%s", cfg, strings.Join(s.run.lines, ";")), s.handledDeaths > 0)
 		r.CountN("ops.sim", len(s.run.lines))
 		r.Count("cfg." + cfg.Kind + ".strategy" + strconv.Itoa(cfg.Strategy) + ".ko" + sb2s(cfg.KO))
@@ -593,5 +605,6 @@ func runC08(c *Ctx) {
 	r.Distribution["sequences"] = len(seqs)
 	implS := time.Since(t0).Seconds()
 	supCompare(c, seqs, 12)
+	supCompareModel(c, "suploop", loops, 12)
 	r.Note("implementation side %.1fs, with model comparison %.1fs, %d sequences", implS, time.Since(t0).Seconds(), len(seqs))
 }
